@@ -4,7 +4,7 @@
   process keeps running (`Stop.faultAt k`): the error path of the call site is executed
   (`Action.io … onFail`), memory keeps the updates made before the failing call.
 -/
-import Nervus.Proofs.CrashFault
+import Nervus.Proofs.CrashFaultC
 import Nervus.Props.C02
 namespace Nervus.Props.C08
 open Nervus Nervus.Crash
@@ -70,14 +70,91 @@ theorem failed_commit_continues {T : List Tx} {fs : FS} {m : Mem} {cs : List CTx
   intro tx' hf' n mode
   exact (C02.commit_every_step hinv htp tx' hf').1 n mode
 
+/-- **C08 (failed compaction is harmless)**: an I/O error at ANY I/O step of `compact` (page
+    allocation, segment / blob / leaf / statistics page write, page sync, tail cut, any write of the
+    four system records, log sync) is reported, leaves the content the handle shows unchanged, and
+    leaves files whose every crash image (that tears no leaf write of the live tree: known finding
+    C01-live-tree-in-place) represents the committed list — nothing is lost, nothing appears.
+    (No leaf split: `NoSplit`.) -/
+theorem failed_compact_atomic {T : List Tx} {fs : FS} {m : Mem} {cs : List CTx} {c : Nat}
+    (h : InvOpen T fs m cs c) (ht : TailPre cfgOfSource fs m) (hns : NoSplit cfgOfSource m fs.pv) (k : Nat)
+    (hk : k < (ioSteps (compactA cfgOfSource m fs.pv fs.wf)).length) :
+    let out := run (compactA cfgOfSource m fs.pv fs.wf) (.faultAt k) fs m
+    out.err = some .io ∧
+    Spec.Content.same (content out.mem out.fs.pv) (Spec.run T) ∧
+    (∀ mode, mode.tearsLive m.proot out.fs.pj = false → Rep T (out.fs.crashP mode) (out.fs.crashW mode)) := by
+  intro out
+  obtain ⟨h1, h2, h3, _⟩ := failed_compact (cfg := cfgOfSource) source_ok.1 h ht hns k hk
+  refine ⟨h1, h3, ?_⟩
+  intro mode hm
+  obtain ⟨T', hT', hr⟩ := h2 mode hm
+  simp only [List.mem_singleton] at hT'
+  subst hT'
+  exact hr
+
+/-- **C08 (failed compaction, log phase: the handle continues)**: when the failing step is the
+    tail cut or a write of one of the system records (the append is rolled back) the handle is back
+    in the invariant for the same list, so every later commit or compaction is covered by the
+    crash theorems again.  (Errors in the page phase leave unsynced page writes behind and an
+    error of the log sync leaves the complete system transaction in the page cache of the log: for
+    those two the continuation is enumerated on model and real engine, not proved.) -/
+theorem failed_compact_continues {T : List Tx} {fs : FS} {m : Mem} {cs : List CTx} {c : Nat}
+    (h : InvOpen T fs m cs c) (ht : TailPre cfgOfSource fs m) (hns : NoSplit cfgOfSource m fs.pv) (k : Nat)
+    (hk1 : (ioSteps (pagesA cfgOfSource m fs.pv).1).length ≤ k)
+    (hk2 : k + 1 < (ioSteps (compactA cfgOfSource m fs.pv fs.wf)).length) :
+    let out := run (compactA cfgOfSource m fs.pv fs.wf) (.faultAt k) fs m
+    InvOpen T out.fs out.mem cs c ∧ TailPre cfgOfSource out.fs out.mem := by
+  intro out
+  exact (failed_compact (cfg := cfgOfSource) source_ok.1 h ht hns k (by omega)).2.2.2 hk1 hk2
+
+/-- **C08 (failed checkpoint-on-close is harmless)**: an I/O error at ANY I/O step of
+    `checkpoint_on_close` (page sync, temporary file creation / writes / sync, rename, log sync) is
+    reported, what the handle showed is unchanged, and every crash image of the files — process
+    death (what a reopen on the same machine finds) or power loss, including a lost rename —
+    represents the committed list: by `C02.open_every_step` the next open succeeds, shows exactly
+    that list, and later commits are durable. -/
+theorem failed_close_atomic {T : List Tx} {fs : FS} {m : Mem} {cs : List CTx} {c : Nat}
+    (h : InvOpen T fs m cs c) (k : Nat) (hk : k < (ioSteps (closeA cfgOfSource m fs.pv fs.wf)).length) :
+    let out := run (closeA cfgOfSource m fs.pv fs.wf) (.faultAt k) fs m
+    out.err = some .io ∧
+    Spec.Content.same (content out.mem out.fs.pv) (Spec.run T) ∧
+    (∀ mode, Closed T (out.fs.crash mode)) := by
+  intro out
+  obtain ⟨h1, h2, h3⟩ := failed_close (cfg := cfgOfSource) h k hk
+  refine ⟨h1, h3, ?_⟩
+  intro mode
+  obtain ⟨T', hT', hcl⟩ := closed_of_safe h2 mode
+  simp only [List.mem_singleton] at hT'
+  subst hT'
+  exact hcl
+
 /-! non-vacuity: the invariant and the hypotheses hold after `open; commit ex_tx1` on a fresh
     database, and the failing step 18 of the next commit is its log sync -/
 example : (3 * (txRecs 3 1 C02.ex_tx2).length) = 18 := by decide
 
-/-! counterexamples -/
-
 def runW (cfg : Cfg) (ops : List (Op × Stop)) : World :=
   ops.foldl (fun w o => (w.step cfg o.1 o.2).1) ⟨created cfg, none⟩
+
+/-! non-vacuity of the compaction / close theorems: after `open; commit ex_tx1` the compaction has 55
+    I/O steps (42 in the page phase), splits no leaf, an error at step 20 is reported, and an error
+    at step 47 (a write of the second system record) leaves the 15 fragments of the log plus the 3 of the
+    complete first record of the aborted block (the frame is rolled back, the block is unsynced
+    and is discarded by the next BeginTx) -/
+def exCompactFacts : Bool :=
+  match (runW cfgOfSource [(.openOp, .none), (.commit C02.ex_tx1, .none)]).mem with
+  | some m =>
+    let fs := (runW cfgOfSource [(.openOp, .none), (.commit C02.ex_tx1, .none)]).fs
+    decide (NoSplit cfgOfSource m fs.pv) &&
+    (ioSteps (compactA cfgOfSource m fs.pv fs.wf)).length == 55 &&
+    (ioSteps (pagesA cfgOfSource m fs.pv).1).length == 42 &&
+    (run (compactA cfgOfSource m fs.pv fs.wf) (.faultAt 20) fs m).err == some .io &&
+    (run (compactA cfgOfSource m fs.pv fs.wf) (.faultAt 47) fs m).fs.wf.length == 18 &&
+    (ioSteps (closeA cfgOfSource m fs.pv fs.wf)).length == 2
+  | none => false
+
+example : exCompactFacts = true := by decide
+
+/-! counterexamples -/
 
 /-- current tree, known finding C08-node-table-apply-failure: the error hits the first page write
     of the node-table phase (the log commit is already durable); `commit` returns Err, the next
